@@ -3,7 +3,8 @@
    PARTIAL: proved - flow-order invariance of every compartment's net rate (for any per-flow rate law),
    time-shift invariance of expressions, of the whole Euler / RK4 trajectory and of whole models (a model whose
    flow parameters, adjustments and mixing matrices do not mention time returns the same compartment values,
-   at times moved by d, when its time span is moved by d), the whole-model scaling law (the rate of every flow
+   at times moved by d, when its time span is moved by d; and the same build program over the moved time span
+   builds exactly that moved model), the whole-model scaling law (the rate of every flow
    answers to a k-fold population by the factor of its kind; Euler rows scale by k along frequency-dependent
    runs, Euler and RK4 rows for models without infection), and the scaling
    identities (clipping commutes with k > 0, prevalence is scale invariant, sums are homogeneous).
@@ -13,7 +14,7 @@
 From Coq Require Import QArith Qcanon List String Bool Permutation.
 Import ListNotations.
 From S2 Require Import Base.Num Base.Arr Model.Expr Model.Struct Model.Solvers
-     Model.Rates Model.Run Model.Program Proofs.NumQc Proofs.NumLemmas Proofs.InvarianceProofs Proofs.TimeShift Proofs.Scaling Gen.SolversGen Props.Examples.
+     Model.Rates Model.Run Model.Program Proofs.NumQc Proofs.NumLemmas Proofs.InvarianceProofs Proofs.TimeShift Proofs.Scaling Proofs.ShiftBuild Gen.SolversGen Props.Examples.
 
 Theorem C15_flow_permutation :
   forall (O : NumOps) (T : NumTheory O) (rate : flow -> F O) (fl fl' : list flow) (c : comp),
@@ -64,6 +65,17 @@ Proof.
   split; [intros P N HN; apply (prevalence_scale_invariant O T); [apply (fpos_neq_0 O T); exact Hk|exact HN] | apply (fsum_scale O T)].
 Qed.
 Print Assumptions C15_scaling_partial.
+
+(* ... and the shifted model is what the same build program builds over the shifted time span: no operation of the
+   build API reads the times after the constructor (every operation commutes with replacing them), the constructor's
+   checks (end after start, timestep divides the span) are invariant under the shift, and errors, where there are
+   any, are the same errors at the same calls *)
+Theorem C15_build_time_shift :
+  forall t0 t1 h d comps inf ops,
+    build (t0 + d) (t1 + d) h comps inf ops
+    = let (om, e) := build t0 t1 h comps inf ops in (option_map (fun m => shift_times m d) om, e).
+Proof. exact build_time_shift. Qed.
+Print Assumptions C15_build_time_shift.
 
 (* whole models, population scale.  For a model whose rate inputs do not mention the compartment values, and k > 0:
    (1) the rate of the flow at position i at the state k * x is [flow_scale_factor] times its rate at x: k for
